@@ -818,7 +818,99 @@ theorem identify_ok {d : ElfDesc} {bytes eh : Bytes} (hcls : d.cls = 32 ∨ d.cl
   rcases hcls with h | h <;> cases hle : d.le <;>
     simp [identify, readN, h, bind, Except.bind, pure, Except.pure]
 
-/-! ### well-formedness, unpacked -/
+/-! ### well-formedness, unpacked
+
+  The proofs below are carried out for `wfZ` / `secOkZ` (compressed sections admitted, Spec/ElfImage.lean);
+  `wf` / `secOk` imply them, so every theorem holds for both. -/
+
+theorem secOk_imp_secOkZ {env : Env} {d : ElfDesc} :
+    ∀ (fuel i : Nat), d.secOk env fuel i = true → d.secOkZ env fuel i = true := by
+  intro fuel
+  induction fuel with
+  | zero => intro i h; simp [ElfDesc.secOk] at h
+  | succ fuel ih =>
+    intro i h
+    rw [ElfDesc.secOk] at h
+    rw [ElfDesc.secOkZ]
+    cases hs : d.sections[i]? with
+    | none => simp [hs] at h
+    | some s =>
+      cases hh : d.decHdr env i with
+      | none => simp [hs, hh] at h
+      | some hd =>
+        simp only [hs, hh, Bool.and_eq_true, beq_iff_eq, Bool.or_eq_true] at h ⊢
+        obtain ⟨hfl, hc⟩ := h
+        refine ⟨Or.inl hfl, ?_⟩
+        have L : ∀ types : List String,
+            (match d.decHdr env (fieldNat hd "sh_link") with
+              | some lh => typeIn lh types && d.secOk env fuel (fieldNat hd "sh_link")
+              | none => false) = true →
+            (match d.decHdr env (fieldNat hd "sh_link") with
+              | some lh => typeIn lh types && d.secOkZ env fuel (fieldNat hd "sh_link")
+              | none => false) = true := by
+          intro types hl
+          cases hl' : d.decHdr env (fieldNat hd "sh_link") with
+          | none => simp [hl'] at hl
+          | some lh =>
+            simp only [hl', Bool.and_eq_true] at hl ⊢
+            exact ⟨hl.1, ih _ hl.2⟩
+        by_cases c0 : typeIn hd ["SHT_SYMTAB", "SHT_DYNSYM", "SHT_SUNW_LDYNSYM"] = true
+        · rw [if_pos c0] at hc ⊢
+          try simp only [Bool.and_eq_true] at hc ⊢
+          exact ⟨⟨L _ hc.1.1, hc.1.2⟩, hc.2⟩
+        rw [if_neg c0] at hc ⊢
+        by_cases c1 : typeIn hd ["SHT_SUNW_syminfo", "SHT_GNU_versym"] = true
+        · rw [if_pos c1] at hc ⊢
+          try simp only [Bool.and_eq_true] at hc ⊢
+          exact L _ hc
+        rw [if_neg c1] at hc ⊢
+        by_cases c2 : typeIn hd ["SHT_GNU_verneed", "SHT_GNU_verdef"] = true
+        · rw [if_pos c2] at hc ⊢
+          try simp only [Bool.and_eq_true] at hc ⊢
+          exact L _ hc
+        rw [if_neg c2] at hc ⊢
+        by_cases c3 : typeIn hd ["SHT_REL"] = true
+        · rw [if_pos c3] at hc ⊢
+          try simp only [Bool.and_eq_true] at hc ⊢
+          exact hc
+        rw [if_neg c3] at hc ⊢
+        by_cases c4 : typeIn hd ["SHT_RELA"] = true
+        · rw [if_pos c4] at hc ⊢
+          try simp only [Bool.and_eq_true] at hc ⊢
+          exact hc
+        rw [if_neg c4] at hc ⊢
+        by_cases c5 : typeIn hd ["SHT_RELR"] = true
+        · rw [if_pos c5] at hc ⊢
+          try simp only [Bool.and_eq_true] at hc ⊢
+          exact hc
+        rw [if_neg c5] at hc ⊢
+        by_cases c6 : typeIn hd ["SHT_DYNAMIC"] = true
+        · rw [if_pos c6] at hc ⊢
+          try simp only [Bool.and_eq_true] at hc ⊢
+          exact L _ hc
+        rw [if_neg c6] at hc ⊢
+        by_cases c7 : typeIn hd ["SHT_ARM_ATTRIBUTES", "SHT_RISCV_ATTRIBUTES"] = true
+        · rw [if_pos c7] at hc ⊢
+          try simp only [Bool.and_eq_true] at hc ⊢
+          exact hc
+        rw [if_neg c7] at hc ⊢
+        by_cases c8 : typeIn hd ["SHT_HASH"] = true
+        · rw [if_pos c8] at hc ⊢
+          try simp only [Bool.and_eq_true] at hc ⊢
+          exact ⟨⟨⟨L _ hc.1.1.1, hc.1.1.2⟩, hc.1.2⟩, hc.2⟩
+        rw [if_neg c8] at hc ⊢
+        by_cases c9 : typeIn hd ["SHT_GNU_HASH"] = true
+        · rw [if_pos c9] at hc ⊢
+          try simp only [Bool.and_eq_true] at hc ⊢
+          exact ⟨⟨⟨L _ hc.1.1.1, hc.1.1.2⟩, hc.1.2⟩, hc.2⟩
+        rw [if_neg c9] at hc ⊢
+
+theorem wf_imp_wfZ {env : Env} {d : ElfDesc} (h : d.wf env = true) : d.wfZ env = true := by
+  unfold ElfDesc.wf at h
+  unfold ElfDesc.wfZ
+  simp only [Bool.and_eq_true, List.all_eq_true, List.mem_range] at h ⊢
+  obtain ⟨⟨h1, h16⟩, h17⟩ := h
+  exact ⟨⟨h1, fun i hi => secOk_imp_secOkZ 4 i (h16 i hi)⟩, h17⟩
 
 structure WfFacts (env : Env) (d : ElfDesc) : Prop where
   cls : d.cls = 32 ∨ d.cls = 64
@@ -836,11 +928,11 @@ structure WfFacts (env : Env) (d : ElfDesc) : Prop where
   phpos : d.segments.length = 0 ∨ 0 < d.phoff
   nameoff : ∀ st, d.sections[d.shstrndx]? = some st →
     ∀ s ∈ d.sections, getNatD st.hdr "sh_offset" + s.nameOff < 2 ^ 63
-  secs : ∀ i, i < d.sections.length → d.secOk env 4 i = true
+  secs : ∀ i, i < d.sections.length → d.secOkZ env 4 i = true
   noshstr : d.sections.length = 0 → d.shstrndx = 0
 
-theorem wf_facts {env : Env} {d : ElfDesc} (h : d.wf env = true) : WfFacts env d := by
-  unfold ElfDesc.wf at h
+theorem wfZ_facts {env : Env} {d : ElfDesc} (h : d.wfZ env = true) : WfFacts env d := by
+  unfold ElfDesc.wfZ at h
   simp only [Bool.and_eq_true, Bool.or_eq_true, beq_iff_eq, decide_eq_true_eq, List.all_eq_true,
     List.mem_range, bne_iff_ne, ne_eq] at h
   obtain ⟨⟨⟨⟨⟨⟨⟨⟨⟨⟨⟨⟨⟨⟨⟨⟨h1, h2⟩, h3⟩, h4⟩, h5⟩, h6⟩, h7⟩, h8⟩, h9⟩, h10⟩, h11⟩, h12⟩, h13⟩, h14⟩, h15⟩, h16⟩, h17⟩ := h
@@ -856,6 +948,9 @@ theorem wf_facts {env : Env} {d : ElfDesc} (h : d.wf env = true) : WfFacts env d
     rcases h17 with h | h
     · exact absurd hn h
     · exact h
+
+theorem wf_facts {env : Env} {d : ElfDesc} (h : d.wf env = true) : WfFacts env d :=
+  wfZ_facts (wf_imp_wfZ h)
 
 /-! ### reading section headers -/
 
@@ -933,15 +1028,15 @@ theorem getSectionHeader_ok {env : Env} {d : ElfDesc} {bytes : Bytes} {hdr : Val
   rw [structParseAt_layout env _ (dS_shdr_fixed d) _ b hb bytes _ hr hpos, hdec]
   rfl
 
-/-! ### `secOk`, unpacked -/
+/-! ### `secOkZ`, unpacked -/
 
-/-- the type-specific half of `secOk` -/
+/-- the type-specific half of `secOkZ` (and of `secOk`) -/
 def secCond (env : Env) (d : ElfDesc) (fuel : Nat) (s : SecDesc) (h : Val) : Bool :=
   let w := d.cls / 8
   let link := fieldNat h "sh_link"
   let linkIs (types : List String) : Bool :=
     match d.decHdr env link with
-    | some lh => typeIn lh types && d.secOk env fuel link
+    | some lh => typeIn lh types && d.secOkZ env fuel link
     | none => false
   let entsize := fieldNat h "sh_entsize"
   let size := fieldNat h "sh_size"
@@ -966,40 +1061,150 @@ def secCond (env : Env) (d : ElfDesc) (fuel : Nat) (s : SecDesc) (h : Val) : Boo
      decide (16 ≤ body.length) && decide (16 + w * word 2 + 4 * word 0 ≤ body.length)
    else true)
 
-theorem secOk_unpack {env : Env} {d : ElfDesc} {fuel i : Nat} (h : d.secOk env fuel i = true) :
+/-- size of the compression header of the description's class (gABI: `Elf32_Chdr` / `Elf64_Chdr`) -/
+def chdrLen (d : ElfDesc) : Nat := if d.cls = 32 then 12 else 24
+
+/-- the SHF_COMPRESSED clause of `secOkZ`: not flagged, or the body begins with a full compression
+    header at a reachable offset -/
+def FlagOk (d : ElfDesc) (s : SecDesc) (hd : Val) : Prop :=
+  fieldNat hd "sh_flags" &&& 0x800 = 0 ∨
+    (fieldNat hd "sh_offset" < 2 ^ 63 ∧ chdrLen d ≤ (bodyOf s).length)
+
+theorem secOkZ_unpack {env : Env} {d : ElfDesc} {fuel i : Nat} (h : d.secOkZ env fuel i = true) :
     ∃ fuel' s hd, fuel = fuel' + 1 ∧ d.sections[i]? = some s ∧ d.decHdr env i = some hd ∧
-      fieldNat hd "sh_flags" &&& 0x800 = 0 ∧ secCond env d fuel' s hd = true := by
+      FlagOk d s hd ∧ secCond env d fuel' s hd = true := by
   cases fuel with
-  | zero => simp [ElfDesc.secOk] at h
+  | zero => simp [ElfDesc.secOkZ] at h
   | succ fuel' =>
-    rw [ElfDesc.secOk] at h
+    rw [ElfDesc.secOkZ] at h
     cases hs : d.sections[i]? with
     | none => simp [hs] at h
     | some s =>
       cases hh : d.decHdr env i with
       | none => simp [hs, hh] at h
       | some hd =>
-        simp only [hs, hh, Bool.and_eq_true, beq_iff_eq] at h
+        simp only [hs, hh, Bool.and_eq_true, beq_iff_eq, Bool.or_eq_true, decide_eq_true_eq] at h
         exact ⟨fuel', s, hd, rfl, rfl, rfl, h.1, h.2⟩
 
+theorem parse_uint_len {env : Env} {data : Bytes} {pos n : Nat} {le : Bool} {ctx : Fields}
+    (h : pos + n ≤ data.length) :
+    Con.parse env data (.uint n le) ctx pos = .ok (.int (decNat le (readN data pos n)), pos + n, ctx) := by
+  have hl : (readN data pos n).length = n := by rw [readN_length]; omega
+  rw [Con.parse, readExact_of_len hl]; rfl
+
+theorem parse_enum_uint_ok {env : Env} {data : Bytes} {pos n : Nat} {le : Bool} {ctx : Fields} {t : String}
+    (h : pos + n ≤ data.length) :
+    ∃ v, Con.parse env data (.enum (.uint n le) t true) ctx pos = .ok (v, pos + n, ctx) := by
+  rw [Con.parse, parse_uint_len h]
+  simp only [bind, Except.bind]
+  cases env.enumDecode t (decNat le (readN data pos n)) <;> exact ⟨_, rfl⟩
+
+/-- any `chdrLen` bytes parse as the compression header of the class: its fields are unsigned
+    integers and a pass-through enumeration -/
+theorem parse_chdr_any (env : Env) (c : ElfCfg) (hc : c.cls = 32 ∨ c.cls = 64) (data : Bytes) (pos : Nat)
+    (hlen : pos + (if c.cls = 32 then 12 else 24) ≤ data.length) :
+    ∃ v p, structParse env (elfStructs c).Elf_Chdr data pos = .ok (v, p) := by
+  unfold structParse
+  rcases hc with h | h
+  · have hS : (elfStructs c).Elf_Chdr
+        = st [f "ch_type" (enumOf (.uint 4 c.le) "ENUM_ELFCOMPRESS_TYPE"), f "ch_size" (.uint 4 c.le),
+              f "ch_addralign" (.uint 4 c.le)] := by
+      simp [elfStructs, h]
+    rw [hS]
+    simp only [h, if_true] at hlen
+    simp only [st, mkFields, f, enumOf]
+    rw [Con.parse, Con.parseFields]
+    simp only [Bool.false_eq_true, if_false, bind, Except.bind]
+    obtain ⟨v1, hv1⟩ := parse_enum_uint_ok (env := env) (data := data) (pos := pos) (n := 4) (le := c.le)
+      (ctx := []) (t := "ENUM_ELFCOMPRESS_TYPE") (by omega)
+    rw [hv1]
+    simp only
+    rw [Con.parseFields]
+    simp only [Bool.false_eq_true, if_false, bind, Except.bind]
+    rw [parse_uint_len (by omega)]
+    simp only
+    rw [Con.parseFields]
+    simp only [Bool.false_eq_true, if_false, bind, Except.bind]
+    rw [parse_uint_len (by omega)]
+    simp only [Con.parseFields]
+    exact ⟨_, _, rfl⟩
+  · have hS : (elfStructs c).Elf_Chdr
+        = st [f "ch_type" (enumOf (.uint 4 c.le) "ENUM_ELFCOMPRESS_TYPE"), f "ch_reserved" (.uint 4 c.le),
+              f "ch_size" (.uint 8 c.le), f "ch_addralign" (.uint 8 c.le)] := by
+      simp [elfStructs, h]
+    rw [hS]
+    simp only [h, show ¬ ((64 : Nat) = 32) by omega, if_false] at hlen
+    simp only [st, mkFields, f, enumOf]
+    rw [Con.parse, Con.parseFields]
+    simp only [Bool.false_eq_true, if_false, bind, Except.bind]
+    obtain ⟨v1, hv1⟩ := parse_enum_uint_ok (env := env) (data := data) (pos := pos) (n := 4) (le := c.le)
+      (ctx := []) (t := "ENUM_ELFCOMPRESS_TYPE") (by omega)
+    rw [hv1]
+    simp only
+    rw [Con.parseFields]
+    simp only [Bool.false_eq_true, if_false, bind, Except.bind]
+    rw [parse_uint_len (by omega)]
+    simp only
+    rw [Con.parseFields]
+    simp only [Bool.false_eq_true, if_false, bind, Except.bind]
+    rw [parse_uint_len (by omega)]
+    simp only
+    rw [Con.parseFields]
+    simp only [Bool.false_eq_true, if_false, bind, Except.bind]
+    rw [parse_uint_len (by omega)]
+    simp only [Con.parseFields]
+    exact ⟨_, _, rfl⟩
+
+/-- `Section.__init__` succeeds: the section is not flagged SHF_COMPRESSED, or the compression
+    header it reads lies inside the body the layout places at `sh_offset` -/
+theorem sectionInit_ok {env : Env} {d : ElfDesc} {bytes : Bytes} {s : SecDesc} {h : Val}
+    (hcls : d.cls = 32 ∨ d.cls = 64) (hL : LayoutFacts d bytes) (hs : s ∈ d.sections)
+    (hf : SecFacts s h) (hfl : FlagOk d s h) :
+    sectionInit env d.S bytes h = .ok () := by
+  unfold sectionInit
+  rw [hf.nat "sh_flags" (by simp [shdrNatKeys])]
+  by_cases h0 : fieldNat h "sh_flags" &&& 0x800 = 0
+  · simp [bind, Except.bind, h0, pure, Except.pure]
+  · rcases hfl with hfl | ⟨hoff, hlen⟩
+    · exact absurd hfl h0
+    · have hne : (fieldNat h "sh_flags" &&& 0x800 != 0) = true := by simpa using h0
+      simp only [bind, Except.bind, hne, if_true]
+      rw [hf.nat "sh_offset" (by simp [shdrNatKeys])]
+      simp only
+      have hpos : 0 < chdrLen d := by unfold chdrLen; split <;> omega
+      cases hb : s.body with
+      | none => simp [bodyOf, hb] at hlen; omega
+      | some body =>
+        have hbl : (bodyOf s) = body := by simp [bodyOf, hb]
+        rw [hbl] at hlen
+        have hread := hL.body s hs body hb
+        rw [← hf.raw "sh_offset" (by simp [shdrNatKeys]) (by decide)] at hread
+        have hle : fieldNat h "sh_offset" + body.length ≤ bytes.length := by
+          rcases readN_le_length hread with e | e
+          · rw [e] at hlen; simp at hlen; omega
+          · exact e
+        obtain ⟨v, p, hp⟩ := parse_chdr_any env d.cfg hcls bytes (fieldNat h "sh_offset") (by
+          show fieldNat h "sh_offset" + chdrLen d ≤ bytes.length
+          omega)
+        unfold structParseAt
+        have : ¬ fieldNat h "sh_offset" ≥ 2 ^ 63 := by omega
+        simp only [this, if_false]
+        have hS : d.S.Elf_Chdr = (elfStructs d.cfg).Elf_Chdr := rfl
+        rw [hS, hp]
+        rfl
+
 /-- everything known about section `i` of a well-formed, laid-out description -/
-theorem sec_bundle {env : Env} {d : ElfDesc} {bytes : Bytes} (hL : LayoutFacts d bytes)
-    {fuel i : Nat} (hok : d.secOk env fuel i = true) :
+theorem sec_bundle {env : Env} {d : ElfDesc} {bytes : Bytes} (hcls : d.cls = 32 ∨ d.cls = 64)
+    (hL : LayoutFacts d bytes) {fuel i : Nat} (hok : d.secOkZ env fuel i = true) :
     ∃ (hi : i < d.sections.length) (hd : Val) (fuel' : Nat), fuel = fuel' + 1 ∧ d.decHdr env i = some hd ∧
-      SecFacts (d.sections[i]) hd ∧ fieldNat hd "sh_flags" &&& 0x800 = 0 ∧
+      SecFacts (d.sections[i]) hd ∧ sectionInit env d.S bytes hd = .ok () ∧
       secCond env d fuel' (d.sections[i]) hd = true := by
-  obtain ⟨fuel', s, hd, rfl, hs, hdec, hfl, hc⟩ := secOk_unpack hok
+  obtain ⟨fuel', s, hd, rfl, hs, hdec, hfl, hc⟩ := secOkZ_unpack hok
   obtain ⟨hi, rfl⟩ := List.getElem?_eq_some_iff.1 hs
   obtain ⟨_, hdd⟩ := decHdr_some hdec
   obtain ⟨b, hb, -⟩ := hL.shdr i hi
-  exact ⟨hi, hd, fuel', rfl, hdec, sec_facts hb hdd, hfl, hc⟩
-
-theorem sectionInit_ok {env : Env} {S : ElfStructs} {data : Bytes} {s : SecDesc} {h : Val}
-    (hf : SecFacts s h) (hfl : fieldNat h "sh_flags" &&& 0x800 = 0) :
-    sectionInit env S data h = .ok () := by
-  unfold sectionInit
-  rw [hf.nat "sh_flags" (by simp [shdrNatKeys])]
-  simp [bind, Except.bind, hfl, pure, Except.pure]
+  have hsf := sec_facts hb hdd
+  exact ⟨hi, hd, fuel', rfl, hdec, hsf, sectionInit_ok hcls hL (List.getElem_mem hi) hsf hfl, hc⟩
 
 /-! ### the extended-numbering escapes -/
 
@@ -1039,7 +1244,7 @@ theorem getShstrndx_ok {env : Env} {d : ElfDesc} {bytes : Bytes} {hdr : Val} (hw
   by_cases hx : (d.xShstrndx || decide (d.shstrndx ≥ 0xff00)) = true
   · obtain ⟨s0, hs0, hlink⟩ := (esc_facts hw.esc).shstrndx hx
     obtain ⟨h0, rfl⟩ := List.getElem?_eq_some_iff.1 hs0
-    obtain ⟨_, h, _, _, hdec, hsf, _, _⟩ := sec_bundle hL (hw.secs 0 h0)
+    obtain ⟨_, h, _, _, hdec, hsf, _, _⟩ := sec_bundle hw.cls hL (hw.secs 0 h0)
     simp only [hx, if_true]
     rw [getSectionHeader_ok hw hL hf hdec]
     simp only [bne_self_eq_false, Bool.false_eq_true, if_false]
@@ -1101,7 +1306,7 @@ theorem openElf_ok_pos {env : Env} {d : ElfDesc} {bytes : Bytes} {hdr : Val} (hw
     rcases hw.shpos with h | h
     · omega
     · exact h.2
-  obtain ⟨_, st, _, _, hdec, hsf, hfl, _⟩ := sec_bundle hL (hw.secs _ hlt)
+  obtain ⟨_, st, _, _, hdec, hsf, hinit, _⟩ := sec_bundle hw.cls hL (hw.secs _ hlt)
   obtain ⟨p, hp⟩ := parse_ehdr_ok hL hd
   refine ⟨st, hdec, ?_⟩
   unfold openElf
@@ -1109,7 +1314,7 @@ theorem openElf_ok_pos {env : Env} {d : ElfDesc} {bytes : Bytes} {hdr : Val} (hw
   simp only [bind, Except.bind, specSF, hp, cfgOfHeader_ok hd hw.cfg hf]
   have : elfStructs d.cfg = d.S := rfl
   rw [this, getShstrndx_ok hw hL hf]
-  simp only [getSectionHeader_ok hw hL hf hdec, sectionInit_ok hsf hfl]
+  simp only [getSectionHeader_ok hw hL hf hdec, hinit]
   rfl
 
 /-! ### section names -/
@@ -1335,10 +1540,10 @@ theorem isStr_nonstr {ty : Val} (hns : ∀ t, ty ≠ .str t) (s : String) : isSt
 
 theorem linkIs_unpack {env : Env} {d : ElfDesc} {fuel link : Nat} {types : List String}
     (h : (match d.decHdr env link with
-          | some lh => typeIn lh types && d.secOk env fuel link
+          | some lh => typeIn lh types && d.secOkZ env fuel link
           | none => false) = true) :
     ∃ lh t, d.decHdr env link = some lh ∧ lh.getField "sh_type" = .ok (.str t) ∧ t ∈ types ∧
-      d.secOk env fuel link = true := by
+      d.secOkZ env fuel link = true := by
   cases hl : d.decHdr env link with
   | none => simp [hl] at h
   | some lh =>
@@ -1354,12 +1559,12 @@ structure Setup (env : Env) (d : ElfDesc) (bytes : Bytes) (hdr st : Val) : Prop 
 
 /-- induction hypothesis of the link recursion -/
 def MakeOk (env : Env) (d : ElfDesc) (bytes : Bytes) (hdr st : Val) (fuel : Nat) : Prop :=
-  ∀ i h, d.secOk env fuel i = true → d.decHdr env i = some h →
+  ∀ i h, d.secOkZ env fuel i = true → d.decHdr env i = some h →
     ∃ r, makeSection env d.S bytes hdr (some st) fuel (some h) = .ok r
 
 abbrev linkIsB (env : Env) (d : ElfDesc) (fuel link : Nat) (types : List String) : Bool :=
   match d.decHdr env link with
-  | some lh => typeIn lh types && d.secOk env fuel link
+  | some lh => typeIn lh types && d.secOkZ env fuel link
   | none => false
 
 theorem linkedStrtabR_ok {env : Env} {d : ElfDesc} {bytes : Bytes} {hdr st : Val}
@@ -1509,12 +1714,6 @@ theorem kindR_other {t : String} (ht : t ∉ knownTypes)
 end branches
 
 /-! ### tables a constructor parses on sight -/
-
-theorem parse_uint_len {env : Env} {data : Bytes} {pos n : Nat} {le : Bool} {ctx : Fields}
-    (h : pos + n ≤ data.length) :
-    Con.parse env data (.uint n le) ctx pos = .ok (.int (decNat le (readN data pos n)), pos + n, ctx) := by
-  have hl : (readN data pos n).length = n := by rw [readN_length]; omega
-  rw [Con.parse, readExact_of_len hl]; rfl
 
 theorem arrayLoop_uint_ok (env : Env) (data : Bytes) (n : Nat) (le : Bool) (ctx : Fields) :
     ∀ (k pos : Nat) (acc : List Val), pos + k * n ≤ data.length →
@@ -1797,11 +1996,10 @@ theorem body_read {d : ElfDesc} {bytes : Bytes} (hL : LayoutFacts d bytes) {i : 
 theorem kindR_ok {env : Env} {d : ElfDesc} {bytes : Bytes} {hdr st : Val}
     (X : Setup env d bytes hdr st) {fuel : Nat} (IH : MakeOk env d bytes hdr st fuel)
     {i : Nat} (hi : i < d.sections.length) {h : Val} (hsf : SecFacts (d.sections[i]) h)
-    (hfl : fieldNat h "sh_flags" &&& 0x800 = 0) (hc : secCond env d fuel (d.sections[i]) h = true)
+    (hinit : sectionInit env d.S bytes h = .ok ()) (hc : secCond env d fuel (d.sections[i]) h = true)
     {ty : Val} (hty : h.getField "sh_type" = .ok ty) :
     kindR env d.S bytes hdr (some st) fuel h ty (fieldNat h "sh_link") (d.sections[i]).name
       = .ok (kindOf ty (d.sections[i]).name) := by
-  have hinit : sectionInit env d.S bytes h = .ok () := sectionInit_ok hsf hfl
   have hes := hsf.nat "sh_entsize" (by simp [shdrNatKeys])
   have hsz := hsf.nat "sh_size" (by simp [shdrNatKeys])
   have hoff := hsf.nat "sh_offset" (by simp [shdrNatKeys])
@@ -1868,20 +2066,20 @@ theorem kindR_ok {env : Env} {d : ElfDesc} {bytes : Bytes} {hdr st : Val}
 
 theorem makeSection_ok {env : Env} {d : ElfDesc} {bytes : Bytes} {hdr st : Val}
     (X : Setup env d bytes hdr st) :
-    ∀ fuel i h, d.secOk env fuel i = true → d.decHdr env i = some h →
+    ∀ fuel i h, d.secOkZ env fuel i = true → d.decHdr env i = some h →
       ∃ (hi : i < d.sections.length) (ty : Val), h.getField "sh_type" = .ok ty ∧
         makeSection env d.S bytes hdr (some st) fuel (some h)
           = .ok (kindOf ty (d.sections[i]).name, (d.sections[i]).name) := by
   intro fuel
   induction fuel with
-  | zero => intro i h hok; simp [ElfDesc.secOk] at hok
+  | zero => intro i h hok; simp [ElfDesc.secOkZ] at hok
   | succ fuel ih =>
     intro i h hok hdec
     have IH : MakeOk env d bytes hdr st fuel := by
       intro j hj hokj hdecj
       obtain ⟨_, _, _, hr⟩ := ih j hj hokj hdecj
       exact ⟨_, hr⟩
-    obtain ⟨hi, h', fuel', hfu, hdec', hsf, hfl, hc⟩ := sec_bundle X.hL hok
+    obtain ⟨hi, h', fuel', hfu, hdec', hsf, hfl, hc⟩ := sec_bundle X.hw.cls X.hL hok
     rw [hdec] at hdec'
     cases hdec'
     cases hfu
@@ -1900,7 +2098,7 @@ theorem getSection_ok {env : Env} {d : ElfDesc} {bytes : Bytes} {hdr st : Val}
       getSection env d.S bytes hdr (some st) i
         = .ok (kindOf ty (d.sections[i]).name, (d.sections[i]).name, h) := by
   have hok := X.hw.secs i hi
-  obtain ⟨_, h, _, _, hdec, hsf, _, _⟩ := sec_bundle X.hL hok
+  obtain ⟨_, h, _, _, hdec, hsf, _, _⟩ := sec_bundle X.hw.cls X.hL hok
   obtain ⟨_, ty, hty, hmk⟩ := makeSection_ok X 4 i h hok hdec
   refine ⟨h, ty, hdec, hsf, hty, ?_⟩
   unfold getSection
@@ -1924,7 +2122,7 @@ theorem numSections_ok {env : Env} {d : ElfDesc} {bytes : Bytes} {hdr : Val} (hw
     by_cases hx : (d.xShnum || decide (d.sections.length ≥ 0xff00)) = true
     · obtain ⟨s0, hs0, hsize⟩ := (esc_facts hw.esc).shnum hx
       obtain ⟨h0, rfl⟩ := List.getElem?_eq_some_iff.1 hs0
-      obtain ⟨_, h, _, _, hdec, hsf, _, _⟩ := sec_bundle hL (hw.secs 0 h0)
+      obtain ⟨_, h, _, _, hdec, hsf, _, _⟩ := sec_bundle hw.cls hL (hw.secs 0 h0)
       simp only [hx, if_true]
       rw [getSectionHeader_ok hw hL hf hdec]
       have h1 : (do let x ← h.getField "sh_size"; x.asNat) = h.getNat "sh_size" := rfl
@@ -2014,12 +2212,11 @@ theorem getSection_obs {env : Env} {d : ElfDesc} {bytes : Bytes} {hdr st : Val} 
   simp only [hdd, hty, bind, Except.bind, pure, Except.pure, Except.ok.injEq] at this
   rw [hget, this]
 
-theorem counts_aux {env : Env} {d : ElfDesc} {bytes : Bytes} {obs : ElfObs} {f : ElfFile}
-    (hwf : d.wf env = true) (hl : Layout d bytes) (ho : d.observe env = .ok obs)
+theorem counts_gen {env : Env} {d : ElfDesc} {bytes : Bytes} {obs : ElfObs} {f : ElfFile}
+    (hw : WfFacts env d) (hl : Layout d bytes) (ho : d.observe env = .ok obs)
     (hf : openElf env specSF specMC bytes = .ok f) :
     numSections env f.S bytes f.header = .ok d.sections.length ∧
     numSegments env f.S bytes f.header f.shstr = .ok d.segments.length := by
-  have hw := wf_facts hwf
   have hL := layout_facts hl
   have hd := (observe_inv ho).1
   obtain ⟨eh, he, -⟩ := hL.ehdr
@@ -2035,11 +2232,10 @@ theorem counts_aux {env : Env} {d : ElfDesc} {bytes : Bytes} {obs : ElfObs} {f :
     exact numSegments_esc X hx
   · exact numSegments_noesc hF hx
 
-theorem get_section_aux {env : Env} {d : ElfDesc} {bytes : Bytes} {obs : ElfObs} {f : ElfFile}
-    (hwf : d.wf env = true) (hl : Layout d bytes) (ho : d.observe env = .ok obs)
+theorem get_section_gen {env : Env} {d : ElfDesc} {bytes : Bytes} {obs : ElfObs} {f : ElfFile}
+    (hw : WfFacts env d) (hl : Layout d bytes) (ho : d.observe env = .ok obs)
     (hf : openElf env specSF specMC bytes = .ok f) (i : Nat) (hi : i < d.sections.length) :
     (getSection env f.S bytes f.header f.shstr i).toOption = obs.sections[i]? := by
-  have hw := wf_facts hwf
   have hL := layout_facts hl
   have hd := (observe_inv ho).1
   obtain ⟨-, -, -, hS, hH⟩ := openElf_fields hw hL hd hf
@@ -2049,16 +2245,15 @@ theorem get_section_aux {env : Env} {d : ElfDesc} {bytes : Bytes} {obs : ElfObs}
   rw [hS, hH, hst, getSection_obs X ho hi hi', List.getElem?_eq_getElem hi']
   rfl
 
-theorem sections_aux {env : Env} {d : ElfDesc} {bytes : Bytes} {obs : ElfObs} {f : ElfFile}
-    (hwf : d.wf env = true) (hl : Layout d bytes) (ho : d.observe env = .ok obs)
+theorem sections_gen {env : Env} {d : ElfDesc} {bytes : Bytes} {obs : ElfObs} {f : ElfFile}
+    (hw : WfFacts env d) (hl : Layout d bytes) (ho : d.observe env = .ok obs)
     (hf : openElf env specSF specMC bytes = .ok f) :
     iterSections env f.S bytes f.header f.shstr = .ok obs.sections := by
-  have hw := wf_facts hwf
   have hL := layout_facts hl
   have hd := (observe_inv ho).1
   have hlen : obs.sections.length = d.sections.length := (mapM_ok_inv _ _ _ (observe_inv ho).2.1).1
   unfold iterSections
-  rw [(counts_aux hwf hl ho hf).1]
+  rw [(counts_gen hw hl ho hf).1]
   simp only [bind, Except.bind]
   obtain ⟨-, -, -, hS, hH⟩ := openElf_fields hw hL hd hf
   apply range_mapM_ok _ _ _ hlen
@@ -2174,7 +2369,7 @@ theorem find_ok {env : Env} {d : ElfDesc} {bytes : Bytes} {hdr st : Val}
       rename_i hcond
       simp only [Bool.and_eq_true, beq_iff_eq] at hcond
       have hok := X.hw.secs i hi
-      obtain ⟨_, h', fuel', hfu, hdec', _, _, hc⟩ := sec_bundle X.hL hok
+      obtain ⟨_, h', fuel', hfu, hdec', _, _, hc⟩ := sec_bundle X.hw.cls X.hL hok
       rw [hdec] at hdec'; cases hdec'
       have htd : ty = .str "SHT_DYNAMIC" := kindOf_dynamic hcond.1
       subst htd
@@ -2219,18 +2414,17 @@ theorem obsSeg_eq {env : Env} {d : ElfDesc} {p : Fields} {r : String × Val} (h 
       simp [h1, h2, bind, Except.bind, pure, Except.pure] at h
       exact ⟨ph, ty, rfl, h2, h.symm⟩
 
-theorem segments_aux {env : Env} {d : ElfDesc} {bytes : Bytes} {obs : ElfObs} {f : ElfFile}
-    (hwf : d.wf env = true) (hl : Layout d bytes) (ho : d.observe env = .ok obs)
+theorem segments_gen {env : Env} {d : ElfDesc} {bytes : Bytes} {obs : ElfObs} {f : ElfFile}
+    (hw : WfFacts env d) (hl : Layout d bytes) (ho : d.observe env = .ok obs)
     (hf : openElf env specSF specMC bytes = .ok f) :
     iterSegments env f.S bytes f.header f.shstr = .ok obs.segments := by
-  have hw := wf_facts hwf
   have hL := layout_facts hl
   have hd := (observe_inv ho).1
   obtain ⟨eh, he, -⟩ := hL.ehdr
   have hF := hdr_facts he hd
   obtain ⟨hlen, hall⟩ := mapM_ok_inv _ _ _ (observe_inv ho).2.2
   unfold iterSegments
-  rw [(counts_aux hwf hl ho hf).2]
+  rw [(counts_gen hw hl ho hf).2]
   simp only [bind, Except.bind]
   obtain ⟨-, -, -, hS, hH⟩ := openElf_fields hw hL hd hf
   have hfind : ∀ poff, makeSegment.find env d.S bytes obs.header f.shstr poff
@@ -2271,13 +2465,6 @@ theorem and_0x800_shift (x k : Nat) (hk : 12 ≤ k) : (x * 2 ^ k) &&& 0x800 = 0 
   rw [Nat.testBit_mul_two_pow]
   have : ¬ k ≤ 11 := by omega
   simp [this]
-
-theorem parse_enum_uint_ok {env : Env} {data : Bytes} {pos n : Nat} {le : Bool} {ctx : Fields} {t : String}
-    (h : pos + n ≤ data.length) :
-    ∃ v, Con.parse env data (.enum (.uint n le) t true) ctx pos = .ok (v, pos + n, ctx) := by
-  rw [Con.parse, parse_uint_len h]
-  simp only [bind, Except.bind]
-  cases env.enumDecode t (decNat le (readN data pos n)) <;> exact ⟨_, rfl⟩
 
 theorem parse_shdr_any (env : Env) (c : ElfCfg) (data : Bytes) (hlen : 16 + 6 * (c.cls / 8) ≤ data.length) :
     ∃ v p, structParse env (elfStructs c).Elf_Shdr data 0 = .ok (v, p) ∧
@@ -2471,11 +2658,10 @@ theorem openElf_ok_zero {env : Env} {d : ElfDesc} {bytes : Bytes} {hdr : Val} (h
   simp only [hget, hinit]
   exact ⟨_, rfl⟩
 
-theorem open_aux {env : Env} {d : ElfDesc} {bytes : Bytes} {obs : ElfObs}
-    (hwf : d.wf env = true) (hl : Layout d bytes) (ho : d.observe env = .ok obs) :
+theorem open_gen {env : Env} {d : ElfDesc} {bytes : Bytes} {obs : ElfObs}
+    (hw : WfFacts env d) (hl : Layout d bytes) (ho : d.observe env = .ok obs) :
     ∃ f, openElf env specSF specMC bytes = .ok f ∧
       f.data = bytes ∧ f.cls = d.cls ∧ f.le = d.le ∧ f.S = d.S ∧ f.header = obs.header := by
-  have hw := wf_facts hwf
   have hL := layout_facts hl
   have hd := (observe_inv ho).1
   have hex : ∃ f, openElf env specSF specMC bytes = .ok f := by
@@ -2546,9 +2732,9 @@ theorem readN_append_right_pad {a ext : Bytes} {off : Nat} {b : Bytes}
   · subst h0; simp [readN]
   · rw [readN_append_left h0, h]
 
-theorem assemble_layout_aux {env : Env} {d : ElfDesc} {tail : Nat} {bytes : Bytes}
-    (hwf : d.wf env = true) (h : d.assemble tail = some bytes) : Layout d bytes := by
-  obtain ⟨rs, hrs, hdisj⟩ := (wf_facts hwf).disj
+theorem assemble_layout_gen {env : Env} {d : ElfDesc} {tail : Nat} {bytes : Bytes}
+    (hw : WfFacts env d) (h : d.assemble tail = some bytes) : Layout d bytes := by
+  obtain ⟨rs, hrs, hdisj⟩ := hw.disj
   unfold ElfDesc.assemble at h
   simp only [hrs, Option.bind_eq_bind, Option.bind_some, Option.pure_def, Option.some.injEq] at h
   subst h
@@ -2559,5 +2745,72 @@ theorem assemble_layout_aux {env : Env} {d : ElfDesc} {tail : Nat} {bytes : Byte
     exact (List.mergeSort_perm rs _).mem_iff.2 hr
   apply readN_append_right_pad
   exact layOut_reads (sortRegions rs) [] hdisj (fun _ _ => Nat.zero_le _) r hmem
+
+/-! ### the property theorems for `wf` (C01) and for `wfZ` (compressed sections admitted) -/
+
+section variants
+variable {env : Env} {d : ElfDesc} {bytes : Bytes} {obs : ElfObs} {f : ElfFile}
+
+theorem open_aux (hwf : d.wf env = true) (hl : Layout d bytes) (ho : d.observe env = .ok obs) :
+    ∃ f, openElf env specSF specMC bytes = .ok f ∧
+      f.data = bytes ∧ f.cls = d.cls ∧ f.le = d.le ∧ f.S = d.S ∧ f.header = obs.header :=
+  open_gen (wf_facts hwf) hl ho
+
+theorem open_aux_z (hwf : d.wfZ env = true) (hl : Layout d bytes) (ho : d.observe env = .ok obs) :
+    ∃ f, openElf env specSF specMC bytes = .ok f ∧
+      f.data = bytes ∧ f.cls = d.cls ∧ f.le = d.le ∧ f.S = d.S ∧ f.header = obs.header :=
+  open_gen (wfZ_facts hwf) hl ho
+
+theorem counts_aux (hwf : d.wf env = true) (hl : Layout d bytes) (ho : d.observe env = .ok obs)
+    (hf : openElf env specSF specMC bytes = .ok f) :
+    numSections env f.S bytes f.header = .ok d.sections.length ∧
+    numSegments env f.S bytes f.header f.shstr = .ok d.segments.length :=
+  counts_gen (wf_facts hwf) hl ho hf
+
+theorem counts_aux_z (hwf : d.wfZ env = true) (hl : Layout d bytes) (ho : d.observe env = .ok obs)
+    (hf : openElf env specSF specMC bytes = .ok f) :
+    numSections env f.S bytes f.header = .ok d.sections.length ∧
+    numSegments env f.S bytes f.header f.shstr = .ok d.segments.length :=
+  counts_gen (wfZ_facts hwf) hl ho hf
+
+theorem get_section_aux (hwf : d.wf env = true) (hl : Layout d bytes) (ho : d.observe env = .ok obs)
+    (hf : openElf env specSF specMC bytes = .ok f) (i : Nat) (hi : i < d.sections.length) :
+    (getSection env f.S bytes f.header f.shstr i).toOption = obs.sections[i]? :=
+  get_section_gen (wf_facts hwf) hl ho hf i hi
+
+theorem get_section_aux_z (hwf : d.wfZ env = true) (hl : Layout d bytes) (ho : d.observe env = .ok obs)
+    (hf : openElf env specSF specMC bytes = .ok f) (i : Nat) (hi : i < d.sections.length) :
+    (getSection env f.S bytes f.header f.shstr i).toOption = obs.sections[i]? :=
+  get_section_gen (wfZ_facts hwf) hl ho hf i hi
+
+theorem sections_aux (hwf : d.wf env = true) (hl : Layout d bytes) (ho : d.observe env = .ok obs)
+    (hf : openElf env specSF specMC bytes = .ok f) :
+    iterSections env f.S bytes f.header f.shstr = .ok obs.sections :=
+  sections_gen (wf_facts hwf) hl ho hf
+
+theorem sections_aux_z (hwf : d.wfZ env = true) (hl : Layout d bytes) (ho : d.observe env = .ok obs)
+    (hf : openElf env specSF specMC bytes = .ok f) :
+    iterSections env f.S bytes f.header f.shstr = .ok obs.sections :=
+  sections_gen (wfZ_facts hwf) hl ho hf
+
+theorem segments_aux (hwf : d.wf env = true) (hl : Layout d bytes) (ho : d.observe env = .ok obs)
+    (hf : openElf env specSF specMC bytes = .ok f) :
+    iterSegments env f.S bytes f.header f.shstr = .ok obs.segments :=
+  segments_gen (wf_facts hwf) hl ho hf
+
+theorem segments_aux_z (hwf : d.wfZ env = true) (hl : Layout d bytes) (ho : d.observe env = .ok obs)
+    (hf : openElf env specSF specMC bytes = .ok f) :
+    iterSegments env f.S bytes f.header f.shstr = .ok obs.segments :=
+  segments_gen (wfZ_facts hwf) hl ho hf
+
+theorem assemble_layout_aux {tail : Nat} (hwf : d.wf env = true) (h : d.assemble tail = some bytes) :
+    Layout d bytes :=
+  assemble_layout_gen (wf_facts hwf) h
+
+theorem assemble_layout_aux_z {tail : Nat} (hwf : d.wfZ env = true) (h : d.assemble tail = some bytes) :
+    Layout d bytes :=
+  assemble_layout_gen (wfZ_facts hwf) h
+
+end variants
 
 end PyElf.Proofs
